@@ -175,6 +175,32 @@ fn main() {
                 };
                 println!("S\t{}\t{}\t{}", cps(&s), cps(&lit), back);
             }
+            // T <items "arity:nested;..."> <model term of the rebuilt tree | None>
+            fn dump_tree(f: &Function) -> String {
+                format!("(Node {} [{}])", f.arity, f.nested_functions.iter().map(dump_tree).collect::<Vec<_>>().join("; "))
+            }
+            for k in 0..arg_u64("--trees", 200) {
+                let n = 1 + rng.below(if k % 10 == 0 { 80 } else { 9 }) as usize;
+                let mut items: Vec<(u8, u64)> = Vec::new();
+                let mut open: i64 = 1;      // children still expected (consistent mode)
+                for i in 0..n {
+                    let c = if k % 3 == 0 { rng.below(4) }                                   // arbitrary counts
+                            else if k % 10 == 0 { if i + 1 < n { 1 } else { 0 } }            // a chain
+                            else { let left = (n - i - 1) as i64 - (open - 1); if left > 0 { rng.below((left as u64).min(3) + 1) } else { 0 } };
+                    open += c as i64 - 1;
+                    items.push((i as u8, c));
+                }
+                let mut text = String::from(".version 1\n");
+                for (i, (a, c)) in items.iter().enumerate() {
+                    text.push_str(&format!(".function {}\n  .arity {}\n  .registers 1\n  .nested {}\n  .code\n    0000: Return0\n", i, a, c));
+                }
+                let res = match guarded(move || assemble(&text)) {
+                    Ok(Ok((fs, _))) => match fs.first() { Some(f) => format!("(Some (Some {}))", dump_tree(f)), None => "(Some None)".into() },
+                    Ok(Err(_)) => "None".into(),
+                    Err(_) => "PANIC".into(),
+                };
+                println!("T\t{}\t{}", items.iter().map(|(a, c)| format!("({}, {}%nat)", a, c)).collect::<Vec<_>>().join("; "), res);
+            }
             for w in words {
                 let op = w >> 24;
                 let mut f = Function::new(None, 0);
@@ -197,7 +223,9 @@ fn main() {
             for (i, p) in progs.iter().enumerate() {
                 let path = std::path::PathBuf::from(format!("{}/c08_{}.aelys", tmp, i));
                 let _ = std::fs::write(&path, p);
-                for (opt, strip) in [(0u32, "false"), (0, "true"), (0, "names"), (2, "false"), (2, "true"), (2, "names")] {
+                let opts: Vec<u32> = arg("--opts").unwrap_or("0,2".into()).split(',').filter_map(|x| x.parse().ok()).collect();
+                let configs: Vec<(u32, &str)> = opts.iter().flat_map(|&o| [(o, "false"), (o, "true"), (o, "names")]).collect();
+                for (opt, strip) in configs {
                     let (mut f, heap, vm) = match compile(&path, p, opt, strip == "true") {
                         Ok(x) => x,
                         Err(e) => { println!("O\t{}\t{}\t{}\tcompile\tcompile-error\t\t\t{}", i, opt, strip, esc(&e)); continue; }
